@@ -447,6 +447,9 @@ fn judge(c: &Cfg, spec: &CmdSpec, cmd: &clap::Command, seq: &[Tok], h: &mut Hist
                 Rel::ORequiresZ if only_default && e.kind == "MissingRequiredArgument" => {
                     bad.push(("a default value triggered a requirement".into(), e.rendered.lines().next().unwrap_or("").to_string()));
                 }
+                Rel::ArgRequiredElseHelp if o_on_cli && e.kind == "DisplayHelpOnMissingArgumentOrSubcommand" => {
+                    bad.push(("an argument given on the command line (possibly without a value) did not count as present for arg_required_else_help".into(), String::new()));
+                }
                 Rel::ArgRequiredElseHelp if seq.is_empty() && env_set && e.kind == "DisplayHelpOnMissingArgumentOrSubcommand" => {
                     bad.push(("an environment-supplied argument did not count as present for arg_required_else_help".into(), String::new()));
                 }
